@@ -3,6 +3,7 @@ the specification's state, attach hints for the requested clause groups (spec/Tr
 from __future__ import annotations
 
 import clauses as C
+import hints as H
 import rows as R
 
 
@@ -120,6 +121,19 @@ def ev_merge(c1, c2, groups, p1=None, p2=None):
     return _finish(ev, res, exc, msg, groups, cf, (c1, c2))
 
 
+def _refusal_hint(ev, want):
+    """a rename refused with ValueError: a point of the substituted contract (assumptions AND guarantees) shows the refusal was not
+    owed to an unsatisfiable result (hint for TLC, which re-evaluates every row at the point)"""
+    ev["refusal"] = dict(H.NONE)
+    if ev["exc"] == "ValueError" and C.contract_ok(want) and C.contract_ok(ev["c1"]):
+        names = sorted(set(ev["names"]) | C.cvars(want))
+        ev["names"] = names
+        h = H.feasible_point(want["a"] + want["g"], names)
+        if h is not None:
+            ev["refusal"] = H.strip(h)
+    return ev
+
+
 def ev_rename(c, s, t, groups):
     from pacti.iocontract import Var
 
@@ -132,7 +146,7 @@ def ev_rename(c, s, t, groups):
             return C.equiv(ev["res"], C.renamed(ev["c1"], s, t))
         return None
 
-    return _finish(ev, res, exc, msg, groups, cf, (c,))
+    return _refusal_hint(_finish(ev, res, exc, msg, groups, cf, (c,)), C.renamed(ev["c1"], s, t))
 
 
 def ev_renames(c, maps, groups):
@@ -152,7 +166,11 @@ def ev_renames(c, maps, groups):
     ev = _finish(ev, res, exc, msg, groups, cf, (c,))
     for s_, t_ in maps:
         ev["names"] = sorted(set(ev["names"]) | {s_, t_})
-    return ev
+    want, clash = ev["c1"], False
+    for s_, t_ in maps:
+        clash = clash or (s_ in C.itf(want) and s_ != t_ and ((s_ in want["inv"] and t_ in want["outv"]) or (s_ in want["outv"] and t_ in want["inv"])))
+        want = C.renamed(want, s_, t_)
+    return _refusal_hint(ev, want) if not clash else dict(ev, refusal=dict(H.NONE))
 
 
 def reconfirm_event(ev, grp, detail):
